@@ -202,9 +202,14 @@ Definition skip_proxy (s : filt) (request : Z) : Z * client :=
   if (request =? 0)%Z then (0%Z, c)
   else if has_skip c then skip_loop (2 * length (splan c) + 4) c request 0%Z
   else if has_seek c && (65536 <? request)%Z then
-    let before := fpos s in
-    let '(after, c') := client_seek c request 1 in
-    if (after =? before + request)%Z then ((after - before)%Z, c') else (ARCHIVE_FATAL, c')
+    (* seeker used as skipper: node-relative offsets, never beyond the end of the node *)
+    let '(before, c1) := client_seek c 0 1 in
+    if (before <? 0)%Z then (0%Z, c1)
+    else
+      let '(end_, c2) := client_seek c1 0 2 in
+      let req := (if end_ <? before then 0 else if end_ - before <? request then end_ - before else request)%Z in
+      let '(after, c3) := client_seek c2 (before + req) 0 in
+      if (after =? before + req)%Z then (req, c3) else (ARCHIVE_FATAL, c3)
   else (0%Z, c).
 
 (* ---------------- advance_file_pointer ---------------- *)
